@@ -7,6 +7,7 @@ import (
 	"path"
 	"path/filepath"
 	"strconv"
+	"strings"
 	"sync"
 
 	"go.uber.org/zap"
@@ -701,9 +702,17 @@ func (d *Directory) removeSubDir(subDirItemName string, directMap *sync.Map) {
 	d.Lock()
 	defer d.Unlock()
 	if _, ok := d.subDirs[subDirItemName]; ok {
-		// Note that this is a NoOp for all but the leaf node of the tree, but it's a harmless NoOp
+		// Drop the removed directory and everything below it from the direct map: the key passed to
+		// RemoveTimeBucket may be shorter than Symbol/Timeframe/AttributeGroup, and then the
+		// directories that own the data files are below the one removed here.
 		subdir := d.subDirs[subDirItemName]
-		directMap.Delete(subdir.pathToItemName)
+		prefix := subdir.pathToItemName + string(os.PathSeparator)
+		directMap.Range(func(key, _ interface{}) bool {
+			if k, ok := key.(string); ok && (k == subdir.pathToItemName || strings.HasPrefix(k, prefix)) {
+				directMap.Delete(k)
+			}
+			return true
+		})
 	}
 	delete(d.subDirs, subDirItemName)
 	if len(d.subDirs) == 0 {
